@@ -10,7 +10,7 @@ from z3 import z3util
 
 from . import loader, numkernel
 from .c01 import Harness, layout, SUPPORTED
-from .common import Report
+from .common import Report, guarded, merge_part
 from .db import db
 from .explorer import explore, prove, satisfiable, Unsupported, EX, has_fp
 from .numkernel import Sig, run_kernel
@@ -42,6 +42,7 @@ def base_raw(f):
     return (1 << f.len) - 1
 
 
+@guarded
 def _def_worker(idxs):
     from . import explorer
     explorer.STATS.__init__()
@@ -297,6 +298,7 @@ def field_real_model(H, D, p, f):
     return out
 
 
+@guarded
 def _history_worker(pair):
     """(III) an encoder instance that has already encoded definition A encodes definition B exactly like a fresh one"""
     from . import explorer
